@@ -283,12 +283,17 @@ func TestRoundTrip(t *testing.T) {
 			fields = append([]reflect.StructField{{Name: "O", Type: reflect.TypeOf(""), Tag: `value:"${c17.absent:},required=false"`}}, fields...)
 			lead = 1
 		}
+		// neighbouring fields of other tag kinds in front of and behind the twins must not matter either
+		dc := kit.DrawDecoys(t)
+		ntw := len(fields) - lead
+		fields = dc.Around(fields...)
+		lead += dc.Lead()
 		obj := reflect.New(reflect.StructOf(fields))
 		// now and then the fields already hold defaults that the configuration must replace, not merge into
 		prefilled := rapid.IntRange(0, 2).Draw(t, "prefill") == 0
 		if prefilled {
 			if pv, ok := prefillFor(typ); ok {
-				for i := lead; i < obj.Elem().NumField(); i++ {
+				for i := lead; i < lead+ntw; i++ {
 					obj.Elem().Field(i).Set(pv())
 				}
 			} else {
@@ -296,7 +301,7 @@ func TestRoundTrip(t *testing.T) {
 			}
 		}
 		out := kit.RunApp(app.SetComponents(obj.Interface()), app.SetConfigLoader(loader.NewRawLoader(doc)))
-		desc := fmt.Sprintf("%s %#v", k.Name, norm(rv))
+		desc := fmt.Sprintf("%s %#v%s", k.Name, norm(rv), dc)
 		ev := rv
 		for ev.Kind() == reflect.Pointer && !ev.IsNil() {
 			ev = ev.Elem()
@@ -340,12 +345,15 @@ func TestRoundTrip(t *testing.T) {
 		if !reflect.DeepEqual(norm(q), norm(p)) {
 			t.Fatalf("C17: prop:\"k\" binds %#v where prefix:\"k\" binds %#v (%s)\nyaml:\n%s", norm(q), norm(p), k.Name, doc)
 		}
-		for i := lead + 3; i < obj.Elem().NumField(); i++ {
+		if err := dc.Check(obj); err != nil {
+			t.Fatalf("C17: %v (%s)\nyaml:\n%s", err, desc, doc)
+		}
+		for i := lead + 3; i < lead+ntw; i++ {
 			if !reflect.DeepEqual(norm(obj.Elem().Field(i)), norm(p)) {
 				t.Fatalf("C17: %s binds %#v where prefix:\"k\" binds %#v: the key is configured, its default must not apply (%s)\nyaml:\n%s", obj.Elem().Type().Field(i).Tag, norm(obj.Elem().Field(i)), norm(p), k.Name, doc)
 			}
 		}
-		labels := []string{"kind/" + k.Name}
+		labels := append([]string{"kind/" + k.Name}, dc.Labels()...)
 		if prefilled {
 			labels = append(labels, "prefilled-fields")
 		}
@@ -709,6 +717,27 @@ type Partial struct {
 	C []int  `yaml:"c"`
 }
 
+// ByName has no yaml tags: its members are matched by their names.
+type ByName struct {
+	Host string
+	Port int
+}
+
+// CPProps names its own prefix (definition.ConfigurationProperties): an untagged field of this type is bound by it.
+type CPProps struct {
+	A int    `yaml:"a"`
+	B string `yaml:"b"`
+	C []int  `yaml:"c"`
+}
+
+func (*CPProps) Prefix() string { return "c17.key" }
+
+type CPHolder struct {
+	Before string `value:"lit"`
+	D      *CPProps
+	After  int `value:"4"`
+}
+
 func TestStructShapes(t *testing.T) {
 	kit.Rec.Rule(rule)
 	rapid.Check(t, func(t *rapid.T) {
@@ -716,13 +745,19 @@ func TestStructShapes(t *testing.T) {
 		var doc string
 		var typ reflect.Type
 		var want any
-		switch rapid.IntRange(0, 3).Draw(t, "shape") {
+		var wantCP *CPProps
+		switch rapid.IntRange(0, 4).Draw(t, "shape") {
+		case 4: // members without yaml tags are matched by name
+			doc = fmt.Sprintf("c17:\n  key:\n    host: h%d\n    port: %d\n", a, x)
+			typ, want = reflect.TypeOf(ByName{}), ByName{Host: fmt.Sprintf("h%d", a), Port: x}
 		case 0: // the subtree has MORE keys than the struct: the extra ones are ignored
 			doc = fmt.Sprintf("c17:\n  key:\n    a: %d\n    b: bee\n    c: [1, 2]\n    extra: 5\n    more:\n      deep: 1\n", a)
 			typ, want = reflect.TypeOf(Partial{}), Partial{A: a, B: "bee", C: []int{1, 2}}
+			wantCP = &CPProps{A: a, B: "bee", C: []int{1, 2}}
 		case 1: // the subtree has FEWER keys: the missing fields stay zero
 			doc = fmt.Sprintf("c17:\n  key:\n    a: %d\n", a)
 			typ, want = reflect.TypeOf(Partial{}), Partial{A: a}
+			wantCP = &CPProps{A: a}
 		case 2: // an embedded struct is a nested struct under its (lower-cased) type name
 			doc = fmt.Sprintf("c17:\n  key:\n    emb:\n      x: %d\n    y: %d\n", x, y)
 			typ, want = reflect.TypeOf(WithEmb{}), WithEmb{Emb: Emb{X: x}, Y: y}
@@ -735,10 +770,17 @@ func TestStructShapes(t *testing.T) {
 			{Name: "V", Type: typ, Tag: `value:"${c17.key}"`},
 			{Name: "Q", Type: typ, Tag: `prop:"c17.key"`},
 		}))
-		out := kit.RunApp(app.SetComponents(obj.Interface()), app.SetConfigLoader(loader.NewRawLoader([]byte(doc))))
+		cp := &CPHolder{}
+		out := kit.RunApp(app.SetComponents(obj.Interface(), cp), app.SetConfigLoader(loader.NewRawLoader([]byte(doc))))
 		desc := fmt.Sprintf("struct-shape %s doc=%q", typ, doc)
 		if !out.OK() {
 			t.Fatalf("C17: %s failed: %v", desc, out)
+		}
+		if wantCP != nil && !reflect.DeepEqual(cp.D, wantCP) {
+			t.Fatalf("C17: %s: the untagged field whose type states Prefix()=\"c17.key\" holds %#v, want %#v", desc, cp.D, wantCP)
+		}
+		if cp.Before != "lit" || cp.After != 4 {
+			t.Fatalf("C17: %s: the fields around the Prefix()-bound one hold %q / %d, want \"lit\" / 4", desc, cp.Before, cp.After)
 		}
 		for i := 0; i < 3; i++ {
 			if got := obj.Elem().Field(i).Interface(); !reflect.DeepEqual(got, want) {
